@@ -2071,7 +2071,413 @@ def members_from_invariantless_bases_cases():
                 yield {"dom": "directed", "name": "members_from_invariantless_bases", "mixin": mixin, "order": order, "own_body": own_body}
 
 
-SCENARIOS = {"members_from_invariantless_bases": members_from_invariantless_bases, "invariants_while_another_thread_reports": invariants_while_another_thread_reports, "separation_in_every_interpreter_mode": separation_in_every_interpreter_mode, "falsy_and_truthy_values": falsy_and_truthy_values, "special_results": special_results, "contracts_on_partial": contracts_on_partial, "error_functions_sharing_code": error_functions_sharing_code, "closed_from_another_context": closed_from_another_context, "proxies_and_nested_constructors": proxies_and_nested_constructors, "member_added_between_invariants": member_added_between_invariants, "integrator_snapshot_without_postcondition": integrator_snapshot_without_postcondition, "exception_from_new": exception_from_new, "interrupt_while_message_is_built": interrupt_while_message_is_built, "concurrent_constructors_without_init": concurrent_constructors_without_init, "async_def_spelling": async_def_spelling, "class_keyword_arguments": class_keyword_arguments, "reserved_keyword_after_valid_calls": reserved_keyword_after_valid_calls, "call_while_constructor_runs": call_while_constructor_runs, "constructor_calls_back": constructor_calls_back, "contract_calls_same_method_of_fresh_object": contract_calls_same_method_of_fresh_object, "odd_exception_classes": odd_exception_classes, "sync_layer_over_coroutine": sync_layer_over_coroutine, "keyword_named_self": keyword_named_self, "decorating_another_function": decorating_another_function, "late_decoration_of_inheriting_override": late_decoration_of_inheriting_override, "used_before_override": used_before_override, "rewritten_file": rewritten_file, "shared_decorator": shared_decorator, "construct_inside_contract": construct_inside_contract,
+# --------------------------------------------------------------------------- round 10
+
+def one_function_in_two_roles(case):
+    """ONE function object is the constructor of one class and a public method (or __setattr__) of another - or of the same -
+    class: each binding gets the checks of ITS role"""
+    log = []
+
+    def helper(self, v=1):
+        log.append("body")
+        object.__setattr__(self, "v", v)
+
+    def setter(self, k, v):
+        log.append("set")
+        object.__setattr__(self, k, v)
+
+    def inv(self):
+        log.append("inv")
+        return self.v >= 0
+
+    fails = []
+    if case["shape"] == "two-classes":
+        class A:
+            __init__ = helper
+        A = icontract.invariant(inv)(A)
+
+        class B:
+            def __init__(self):
+                self.v = 1
+            reset = helper
+        B = icontract.invariant(inv)(B)
+        order = [("ctor", lambda: A(2), ["body", "inv"]), ("method", lambda: B().reset(3), ["inv", "body", "inv"])]
+        if case["first"] == "method":
+            order.reverse()
+    elif case["shape"] == "same-class":
+        class C:
+            __init__ = helper
+            reset = helper
+        C = icontract.invariant(inv)(C)
+        order = [("ctor", lambda: C(2), ["body", "inv"]), ("method", lambda: C(1).reset(3), ["inv", "body", "inv"])]
+    else:
+        class D:
+            def __init__(self):
+                object.__setattr__(self, "v", 1)
+            __setattr__ = setter
+            assign = setter
+        D = icontract.invariant(inv, check_on=icontract.InvariantCheckEvent.ALL)(D)
+        order = [("assignment", lambda: setattr(D(), "v", 5), ["inv", "set", "inv"]), ("public alias", lambda: D().assign("v", 6), ["inv", "set", "inv"])]
+    for label, thunk, want in order:
+        if label in ("method", "assignment", "public alias"):
+            # (the object is constructed first: only the operation itself is logged)
+            pass
+        del log[:]
+        try:
+            thunk()
+        except BaseException as e:  # noqa: B902
+            fails.append("%s: raised %s" % (label, type(e).__name__))
+            continue
+        got = log[-len(want):]
+        if got != want:
+            fails.append("one function bound in two roles (%s): the %s evaluated %s, expected ...%s" % (case["shape"], label, log, want))
+    # a broken object must be refused by the public method before its body
+    if case["shape"] == "two-classes":
+        b = B()
+        object.__setattr__(b, "v", -1)
+        del log[:]
+        try:
+            b.reset(7)
+            fails.append("a broken object: reset() returned (evaluations %s), expected a violation before the body" % log)
+        except icontract.ViolationError:
+            if "body" in log:
+                fails.append("a broken object: the body of reset() ran: %s" % log)
+    return {"fails": fails}
+
+
+def one_function_in_two_roles_cases():
+    for first in ("ctor", "method"):
+        yield {"dom": "directed", "name": "one_function_in_two_roles", "shape": "two-classes", "first": first}
+    yield {"dom": "directed", "name": "one_function_in_two_roles", "shape": "same-class", "first": "ctor"}
+    yield {"dom": "directed", "name": "one_function_in_two_roles", "shape": "setattr-alias", "first": "ctor"}
+
+
+class _CallableError(Exception):
+    """an exception that is also callable (an HTTP error that is a WSGI application, as werkzeug's)"""
+
+    def __call__(self, environ, start_response):
+        return ["body"]
+
+
+def callable_exception_instance(case):
+    """`error` given as an exception INSTANCE whose class happens to define __call__: the very instance is raised"""
+    err = _CallableError("bad request")
+    role, is_async = case["role"], case["async"]
+    if role == "invariant":
+        class K:
+            def __init__(self):
+                self.ok = True
+
+            def m(self):
+                self.ok = False
+        K = icontract.invariant(lambda self: self.ok, error=err)(K)
+        thunk = lambda: K().m()  # noqa: E731
+    else:
+        deco = icontract.require(lambda x: x > 0, error=err) if role == "require" else icontract.ensure(lambda result: result > 0, error=err)
+        if is_async:
+            @deco
+            async def f(x):
+                return x
+            thunk = lambda: _drive(f(-1))  # noqa: E731
+        else:
+            @deco
+            def f(x):
+                return x
+            thunk = lambda: f(-1)  # noqa: E731
+    fails = []
+    for rep in range(2):
+        try:
+            thunk()
+            got = "returned"
+        except BaseException as e:  # noqa: B902
+            got = "same" if e is err else "other %s: %s" % (type(e).__name__, str(e)[:80])
+        if got != "same":
+            fails.append("%s%s with a callable exception instance as error, violation %d: %s, expected the very instance" % ("async " if is_async else "", role, rep, got))
+    return {"fails": fails}
+
+
+def callable_exception_instance_cases():
+    for role in ("require", "ensure", "invariant"):
+        for a in ((False, True) if role != "invariant" else (False,)):
+            yield {"dom": "directed", "name": "callable_exception_instance", "role": role, "async": a}
+
+
+def contracts_on_bound_methods(case):
+    """contracts applied to the bound methods of two different objects of one class: they are different callables - a
+    condition of one that calls the other is an ordinary checked call"""
+    log = []
+
+    class Service:
+        def __init__(self, name):
+            self.name = name
+
+        def handle(self, x):
+            log.append("body " + self.name)
+            return x
+
+    a, b = Service("a"), Service("b")
+
+    def pre_b(x):
+        log.append("pre_b")
+        return x >= 0
+
+    def pre_a(x):
+        log.append("pre_a")
+        checked_b(x)            # the OTHER object's contracted method
+        return True
+
+    checked_b = icontract.require(pre_b)(b.handle)
+    checked_a = icontract.require(pre_a)(a.handle)
+    fails = []
+    del log[:]
+    try:
+        checked_a(3)
+        got = "ok"
+    except icontract.ViolationError:
+        got = "violation"
+    if got != "ok" or log != ["pre_a", "pre_b", "body b", "body a"]:
+        fails.append("checked_a(3): %s, evaluations %s; expected ok, ['pre_a', 'pre_b', 'body b', 'body a']" % (got, log))
+    del log[:]
+    try:
+        checked_a(-1)
+        got = "ok"
+    except icontract.ViolationError:
+        got = "violation"
+    if got != "violation" or "body a" in log or "body b" in log:
+        fails.append("checked_a(-1): %s, evaluations %s; expected the violation of the other object's precondition" % (got, log))
+    return {"fails": fails}
+
+
+def contracts_on_bound_methods_cases():
+    yield {"dom": "directed", "name": "contracts_on_bound_methods"}
+
+
+def rejected_constructions_do_not_accumulate(case):
+    """every construction of an invalid value of a class checked by the __new__ hook is refused - the first, the second, the
+    sixty-fourth (short-lived rejected instances re-use memory addresses)"""
+    import collections
+
+    def nonneg(self):
+        return self.v >= 0
+
+    if case["shape"] == "namedtuple":
+        P = icontract.invariant(nonneg)(type("P", (collections.namedtuple("PBase", "v"),), {}))
+    else:
+        class P:
+            def __new__(cls, v=0):
+                o = object.__new__(cls)
+                o.v = v
+                return o
+        P = icontract.invariant(nonneg)(P)
+    kept = []
+    accepted = []
+    for i in range(64):
+        try:
+            o = P(-1 - (i % 3))
+            accepted.append(i)
+            kept.append(o)
+        except icontract.ViolationError:
+            pass
+        if i % 5 == 0:
+            P(1)             # valid ones in between
+    fails = []
+    if accepted:
+        fails.append("%d of 64 constructions of an invalid value were accepted (the first at #%d)" % (len(accepted), accepted[0]))
+    # a rejected instance that is kept alive (through the exception) is still checked afterwards
+    try:
+        P(-5)
+    except icontract.ViolationError:
+        pass
+    good = P(3)
+    if case["shape"] != "namedtuple":
+        object.__setattr__(good, "v", -1)
+        try:
+            type(good).__repr__(good)
+        except BaseException:  # noqa: B902
+            pass
+    return {"fails": fails}
+
+
+def rejected_constructions_do_not_accumulate_cases():
+    for shape in ("namedtuple", "own_new"):
+        yield {"dom": "directed", "name": "rejected_constructions_do_not_accumulate", "shape": shape}
+
+
+def sometimes_awaitable_condition(case):
+    """a condition (an ordinary function) of an async callable that returns a plain value for some inputs and an awaitable
+    for others: every call is judged on what THAT call's condition returned"""
+    allowed = {"alice"}
+    awaited = []
+
+    async def is_allowed(user):
+        awaited.append(user)
+        return user in allowed
+
+    def cond(user):
+        return user is None or is_allowed(user)
+
+    if case["role"] == "require":
+        @icontract.require(cond)
+        async def f(user):
+            return user
+    else:
+        def post(user, result):
+            return cond(user)
+
+        @icontract.ensure(post)
+        async def f(user):
+            return user
+
+    fails = []
+    for user in case["history"]:
+        want = "ok" if (user is None or user in allowed) else "violation"
+        try:
+            _drive_all(f(user))
+            got = "ok"
+        except icontract.ViolationError:
+            got = "violation"
+        except BaseException as e:  # noqa: B902
+            got = "raised %s: %s" % (type(e).__name__, str(e)[:60])
+        if got != want:
+            fails.append("history %s, call f(%r): %s, expected %s" % (case["history"], user, got, want))
+    return {"fails": fails}
+
+
+def _drive_all(co):
+    while True:
+        try:
+            co.send(None)
+        except StopIteration as e:
+            return e.value
+
+
+def sometimes_awaitable_condition_cases():
+    for role in ("require", "ensure"):
+        for history in ([None, "bob", "alice", None], ["bob", None, "bob"], ["alice", None, "bob", "alice"], [None, None, "bob"]):
+            yield {"dom": "directed", "name": "sometimes_awaitable_condition", "role": role, "history": history}
+
+
+def property_inherited_into_class_with_invariants(case):
+    """a DBC base WITHOUT invariants defines a public property; a subclass with an invariant inherits it: the base and its
+    other (invariant-free) subclasses keep behaving as before"""
+    class Shape(icontract.DBC):
+        def __init__(self):
+            self.sides = 3
+
+        @property
+        def corners(self):
+            return self.sides
+
+        def area(self):
+            return 1
+
+    class Plain(Shape):
+        pass
+
+    before = [Shape().corners, Plain().corners, Shape().area(), Plain().area()]
+
+    def positive(self):
+        return self.sides > 0
+
+    if case["how"] == "decorator":
+        class Checked(Shape):
+            pass
+        Checked = icontract.invariant(positive)(Checked)
+    else:
+        Checked = icontract.invariant(positive)(type(Shape)("Checked", (Shape,), {}))
+    fails = []
+    try:
+        after = [Shape().corners, Plain().corners, Shape().area(), Plain().area()]
+    except BaseException as e:  # noqa: B902
+        after = "raised %s: %s" % (type(e).__name__, str(e)[:80])
+    if after != before:
+        fails.append("after a subclass with an invariant inherited the property: base / sibling give %s, before %s" % (after, before))
+    c = Checked()
+    c.sides = -1
+    try:
+        c.corners
+        fails.append("the inherited property of the class with the invariant is not guarded")
+    except icontract.ViolationError:
+        pass
+    return {"fails": fails}
+
+
+def property_inherited_into_class_with_invariants_cases():
+    for how in ("decorator", "dynamic"):
+        yield {"dom": "directed", "name": "property_inherited_into_class_with_invariants", "how": how}
+
+
+def default_limits(case):
+    """the documented default limits of the message values (50 items per container, 256 characters per string / object)
+    hold for every container type and for every kind of contract that has no a_repr of its own"""
+    import array
+    import collections
+    n_small, n_big = 30, 80
+    mk = {
+        "list": lambda n: list(range(n)), "tuple": lambda n: tuple(range(n)), "set": lambda n: set(range(n)),
+        "frozenset": lambda n: frozenset(range(n)), "deque": lambda n: collections.deque(range(n)),
+        "array": lambda n: array.array("i", range(n)), "dict": lambda n: dict((i, i) for i in range(n)),
+    }[case["type"]]
+    kind = case["kind"]
+
+    def violate(value):
+        if kind == "require":
+            @icontract.require(lambda v: v is None)
+            def f(v):
+                return v
+            thunk = lambda: f(value)  # noqa: E731
+        elif kind == "ensure":
+            @icontract.ensure(lambda v, result: v is None)
+            def g(v):
+                return 1
+            thunk = lambda: g(value)  # noqa: E731
+        else:
+            @icontract.invariant(lambda self: self.v is None)
+            class K:
+                def __init__(self, v):
+                    self.v = v
+
+                def __repr__(self):
+                    return "K()"
+            thunk = lambda: K(value)  # noqa: E731
+        try:
+            thunk()
+            return None
+        except icontract.ViolationError as e:
+            return str(e)
+
+    fails = []
+    for n, want_items, cut in ((n_small, n_small, False), (n_big, 50, True)):
+        msg = violate(mk(n))
+        if msg is None:
+            fails.append("no violation")
+            continue
+        line = [ln for ln in msg.split("\n") if (" was " in ln and ("v was" in ln or "self.v was" in ln))]
+        if not line:
+            fails.append("%s: no value line in %r" % (case["type"], msg[:200]))
+            continue
+        text = line[0].split(" was ", 1)[1]
+        import re
+        shown = len(re.findall(r"\d+: \d+", text)) if case["type"] == "dict" else len(re.findall(r"(?<![\w'])\d+(?![\w'])", text.replace("array('i', ", "").replace("maxlen=None", "")))
+        if shown != want_items or (("..." in text) != cut):
+            fails.append("%s on a %s of %d items (no a_repr given): %d items shown, ellipsis %s; the documented default limit is 50 items (%s)"
+                         % (kind, case["type"], n, shown, "..." in text, text[:80]))
+    for n, want_len in ((200, 202), (400, 256)):
+        msg = violate("x" * n)
+        line = [ln for ln in (msg or "").split("\n") if " was " in ln and ("v was" in ln)]
+        text = line[0].split(" was ", 1)[1] if line else ""
+        if len(text) != want_len:
+            fails.append("%s on a string of %d characters: %d characters shown, expected %d (default limit 256)" % (kind, n, len(text), want_len))
+    return {"fails": fails}
+
+
+def default_limits_cases():
+    for kind in ("require", "ensure", "invariant"):
+        for t in ("list", "tuple", "set", "frozenset", "deque", "array", "dict"):
+            yield {"dom": "directed", "name": "default_limits", "kind": kind, "type": t}
+
+
+SCENARIOS = {"default_limits": default_limits, "one_function_in_two_roles": one_function_in_two_roles, "callable_exception_instance": callable_exception_instance, "contracts_on_bound_methods": contracts_on_bound_methods, "rejected_constructions_do_not_accumulate": rejected_constructions_do_not_accumulate, "sometimes_awaitable_condition": sometimes_awaitable_condition, "property_inherited_into_class_with_invariants": property_inherited_into_class_with_invariants, "members_from_invariantless_bases": members_from_invariantless_bases, "invariants_while_another_thread_reports": invariants_while_another_thread_reports, "separation_in_every_interpreter_mode": separation_in_every_interpreter_mode, "falsy_and_truthy_values": falsy_and_truthy_values, "special_results": special_results, "contracts_on_partial": contracts_on_partial, "error_functions_sharing_code": error_functions_sharing_code, "closed_from_another_context": closed_from_another_context, "proxies_and_nested_constructors": proxies_and_nested_constructors, "member_added_between_invariants": member_added_between_invariants, "integrator_snapshot_without_postcondition": integrator_snapshot_without_postcondition, "exception_from_new": exception_from_new, "interrupt_while_message_is_built": interrupt_while_message_is_built, "concurrent_constructors_without_init": concurrent_constructors_without_init, "async_def_spelling": async_def_spelling, "class_keyword_arguments": class_keyword_arguments, "reserved_keyword_after_valid_calls": reserved_keyword_after_valid_calls, "call_while_constructor_runs": call_while_constructor_runs, "constructor_calls_back": constructor_calls_back, "contract_calls_same_method_of_fresh_object": contract_calls_same_method_of_fresh_object, "odd_exception_classes": odd_exception_classes, "sync_layer_over_coroutine": sync_layer_over_coroutine, "keyword_named_self": keyword_named_self, "decorating_another_function": decorating_another_function, "late_decoration_of_inheriting_override": late_decoration_of_inheriting_override, "used_before_override": used_before_override, "rewritten_file": rewritten_file, "shared_decorator": shared_decorator, "construct_inside_contract": construct_inside_contract,
              "cancelled_in_body": cancelled_in_body, "recreated_class": recreated_class}
 
 
